@@ -253,13 +253,24 @@ def validate_interp_contract(rng=None, n=20):
 # --- misc numpy helpers without object loops ---------------------------------------------
 def np_isnan(x):
     if isinstance(x, (Sym, SymBool)):
-        return False
+        return np.bool_(False)   # numpy bool: `~np.isnan(x)` must stay a boolean negation
     if isinstance(x, np.ndarray) and x.dtype == object:
         out = np.empty(x.shape, dtype=bool)
         for i, v in np.ndenumerate(x):
             out[i] = (not isinstance(v, (Sym, SymBool))) and bool(np.isnan(float(v)))
         return out
+    if isinstance(x, float):
+        return np.bool_(x != x)
     return np.isnan(x)
+
+
+@_named("np.isnan object-aware (inside the named wavespectra module only)")
+@contextlib.contextmanager
+def isnan_aware(*modules):
+    with contextlib.ExitStack() as st:
+        for m in modules:
+            st.enter_context(patch_attr(m, "np", _Proxy(np, isnan=np_isnan)))
+        yield
 
 
 @_named("float()-identity on symbolic values (inside the named wavespectra module only)")
